@@ -1,5 +1,6 @@
 SPECIFICATION MCSpec
 CONSTANTS
   Universe = "probe"
-INVARIANTS NoFloorCase
+  Probe = "NoFloorCase"
+INVARIANTS ProbeInv
 CHECK_DEADLOCK FALSE
